@@ -2,7 +2,8 @@
    Only statements; every proof is [exact lemma].  Model: OSU.Model.Estimators. *)
 From Coq Require Import Reals List Arith Lra.
 From OSU.Model Require Import Estimators.
-From OSU.Proofs Require Import Estimators Estimators5.
+From Coquelicot Require Import Coquelicot.
+From OSU.Proofs Require Import Estimators Estimators5 Estimators7.
 Import ListNotations.
 Open Scope R_scope.
 
@@ -12,8 +13,25 @@ Open Scope R_scope.
    not (the sign of the numerator cancels in the normalisation). *)
 Theorem mem_valid : forall th a1 b1 a2 b2 D,
   mem_point th a1 b1 a2 b2 = Some D ->
-  Forall (fun x => 0 <= x) D /\ sumR D * (2 * PI / INR (length th)) = 1 /\ length D = length th.
+  List.Forall (fun x => 0 <= x) D /\ sumR D * (2 * PI / INR (length th)) = 1 /\ length D = length th.
 Proof. exact mem_valid. Qed.
+
+(* the (re, im) arithmetic of the model is the complex formula of mem.py:
+   Phi1 = (c1 - c2 conj c1)/(1 - c1 conj c1), Phi2 = c2 - Phi1 c1, numerator = Re(1 - Phi1 conj c1 - Phi2 conj c2),
+   denominator = |1 - Phi1 e^{-i t} - Phi2 e^{-2 i t}|^2 *)
+Theorem mem_phi1_complex : forall a1 b1 a2 b2, 1 - (a1 * a1 + b1 * b1) <> 0 ->
+  mem_phi1 a1 b1 a2 b2 = CPhi1 a1 b1 a2 b2.
+Proof. exact mem_phi1_complex. Qed.
+Theorem mem_phi2_complex : forall a1 b1 a2 b2, 1 - (a1 * a1 + b1 * b1) <> 0 ->
+  mem_phi2 a1 b1 a2 b2 = CPhi2 a1 b1 a2 b2.
+Proof. exact mem_phi2_complex. Qed.
+Theorem mem_num_complex : forall a1 b1 a2 b2, 1 - (a1 * a1 + b1 * b1) <> 0 ->
+  mem_num a1 b1 a2 b2 = fst (CNum a1 b1 a2 b2).
+Proof. exact mem_num_complex. Qed.
+Theorem mem_den_complex : forall a1 b1 a2 b2, 1 - (a1 * a1 + b1 * b1) <> 0 -> forall t,
+  mem_den (mem_phi1 a1 b1 a2 b2) (mem_phi2 a1 b1 a2 b2) t
+  = Cmod (CDenArg a1 b1 a2 b2 t) * Cmod (CDenArg a1 b1 a2 b2 t).
+Proof. exact mem_den_complex. Qed.
 
 (* the guards pass under the premises of the property: a1^2+b1^2 < 1, numerator <> 0, no singular direction *)
 Theorem mem_point_defined : forall th a1 b1 a2 b2,
@@ -27,15 +45,15 @@ Theorem mem_estimate_valid : forall dirs a1 b1 a2 b2 D,
   estimate_entry VMem dirs (Some a1) (Some b1) (Some a2) (Some b2) = EDist D ->
   dirs <> [] ->
   mem_guard (to_rad dirs) a1 b1 a2 b2 = true ->
-  exists xs, D = map Some xs /\ Forall (fun x => 0 <= x) xs /\
+  exists xs, D = map Some xs /\ List.Forall (fun x => 0 <= x) xs /\
              sumR xs * (360 / INR (length dirs)) = 1 /\ length xs = length dirs.
 Proof. exact mem_estimate_valid. Qed.
 
 (* ---- MEM2: for EVERY finite lambda the distribution is strictly positive with unit integral, so whatever
    Newton, scipy's root finder, the least-squares fallback or the first guess deliver is a valid distribution *)
 Theorem mem2_dist_valid : forall l d th,
-  th <> [] -> length d = length th -> Forall (fun x => 0 < x) d ->
-  Forall (fun x => 0 < x) (dist l d th) /\ wsum (dist l d th) d = 1 /\ length (dist l d th) = length th.
+  th <> [] -> length d = length th -> List.Forall (fun x => 0 < x) d ->
+  List.Forall (fun x => 0 < x) (dist l d th) /\ wsum (dist l d th) d = 1 /\ length (dist l d th) = length th.
 Proof. exact mem2_dist_valid. Qed.
 
 (* the one documented exception: NaN in the first guess (NaN moments) gives the all-zero row *)
@@ -46,16 +64,16 @@ Proof. exact nan_guess_zero. Qed.
 (* every status of the modelled Newton solver (converged, max_iter, failed line search) and the approximate
    variant return dist(lambda) for some lambda, hence a valid distribution *)
 Theorem newton_solver_valid : forall approx mo g d th D st,
-  th <> [] -> length d = length th -> Forall (fun x => 0 < x) d ->
+  th <> [] -> length d = length th -> List.Forall (fun x => 0 < x) d ->
   newton_solver approx mo (Some g) d th = Dist D st ->
-  Forall (fun x => 0 < x) D /\ wsum D d = 1 /\ length D = length th.
+  List.Forall (fun x => 0 < x) D /\ wsum D d = 1 /\ length D = length th.
 Proof. exact newton_solver_valid. Qed.
 
 (* estimate_directional_distribution(method="mem2", solution_method in {newton, approximate}), finite moments *)
 Theorem mem2_estimate_valid : forall v dirs a1 b1 a2 b2 D,
   v <> VMem -> dirs <> [] ->
   estimate_entry v dirs (Some a1) (Some b1) (Some a2) (Some b2) = EDist D ->
-  exists xs, D = map Some xs /\ Forall (fun x => 0 < x) xs /\
+  exists xs, D = map Some xs /\ List.Forall (fun x => 0 < x) xs /\
              wsum xs (map (fun w => w / jac_deg) (incr_newton (to_rad dirs))) = 1 /\
              length xs = length dirs.
 Proof. exact mem2_estimate_valid. Qed.
@@ -69,7 +87,7 @@ Proof. exact incr_newton_uniform. Qed.
 Theorem mem2_estimate_valid_linspace : forall v n a1 b1 a2 b2 D,
   v <> VMem -> (3 <= n)%nat ->
   estimate_entry v (linspace360 n) (Some a1) (Some b1) (Some a2) (Some b2) = EDist D ->
-  exists xs, D = map Some xs /\ Forall (fun x => 0 < x) xs /\ sumR xs * (360 / INR n) = 1 /\ length xs = n.
+  exists xs, D = map Some xs /\ List.Forall (fun x => 0 < x) xs /\ sumR xs * (360 / INR n) = 1 /\ length xs = n.
 Proof. exact mem2_estimate_valid_linspace. Qed.
 
 Theorem estimate_nan_moments : forall v dirs a1 b1 a2 b2,
@@ -84,18 +102,18 @@ Proof. exact estimate_nan_moments. Qed.
 
 (* ---- energy: e_i * D_ij integrated over direction gives back e_i, hence the same total variance *)
 Theorem energy_roundtrip : forall step e D,
-  length e = length D -> Forall (fun row => wsum row step = 1) D ->
+  length e = length D -> List.Forall (fun row => wsum row step = 1) D ->
   map (dint step) (to_2d e D) = e.
 Proof. exact energy_roundtrip. Qed.
 
 Theorem variance_preserved : forall f step e D,
-  length e = length D -> Forall (fun row => wsum row step = 1) D ->
+  length e = length D -> List.Forall (fun row => wsum row step = 1) D ->
   trapz f (map (dint step) (to_2d e D)) = trapz f e.
 Proof. exact variance_preserved. Qed.
 
 Theorem to_2d_nonneg : forall e D,
-  Forall (fun x => 0 <= x) e -> Forall (Forall (fun x => 0 <= x)) D ->
-  Forall (Forall (fun x => 0 <= x)) (to_2d e D).
+  List.Forall (fun x => 0 <= x) e -> List.Forall (List.Forall (fun x => 0 <= x)) D ->
+  List.Forall (List.Forall (fun x => 0 <= x)) (to_2d e D).
 Proof. exact to_2d_nonneg. Qed.
 
 (* ---- batches: entry i of the batch result is the function of entry i alone *)
@@ -122,7 +140,7 @@ Proof. exact @meta_only_density. Qed.
 (* ---- non-vacuity: the premises are satisfiable *)
 Example grid4_premises :
   let th := [0; PI / 2; PI; 3 * PI / 2] in let d := [PI / 2; PI / 2; PI / 2; PI / 2] in
-  th <> [] /\ length d = length th /\ Forall (fun x => 0 < x) d.
+  th <> [] /\ length d = length th /\ List.Forall (fun x => 0 < x) d.
 Proof.
   simpl. pose proof PI_RGT_0. repeat split; try discriminate.
   repeat constructor; lra.
